@@ -59,7 +59,7 @@ func TestVerifC14(t *testing.T) {
 	synctest.Test(t, func(t *testing.T) {
 		now := time.Now()
 		headers := c14Headers()
-		verifierOutcomes := []string{"ok", "invalid", "oauth", "other", "nilinfo"}
+		verifierOutcomes := []string{"ok", "invalid", "oauth", "other", "nilinfo", "invalid+info", "oauth+info", "other+info"} // +info: the error comes with a (to be ignored) non-nil TokenInfo
 		// (scope lists are sets: repeated entries change nothing)
 		required := [][]string{nil, {"a"}, {"a", "b"}, {"a", "a"}}
 		granted := [][]string{nil, {"a"}, {"b"}, {"a", "b"}, {"b", "c", "a"}, {"a", "a"}, {"b", "b", "c"}}
@@ -195,15 +195,19 @@ func c14One(cases *verifx.Cases, idx int, now time.Time, h c14Header, vo string,
 	verifier := func(ctx context.Context, token string, r *http.Request) (*TokenInfo, error) {
 		verifierCalls++
 		verifierToken = token
-		switch vo {
+		var withErr *TokenInfo
+		if strings.HasSuffix(vo, "+info") {
+			withErr = info
+		}
+		switch strings.TrimSuffix(vo, "+info") {
 		case "ok":
 			return info, nil
 		case "invalid":
-			return nil, fmt.Errorf("signature mismatch: %w", ErrInvalidToken)
+			return withErr, fmt.Errorf("signature mismatch: %w", ErrInvalidToken)
 		case "oauth":
-			return nil, fmt.Errorf("dpop required: %w", ErrOAuth)
+			return withErr, fmt.Errorf("dpop required: %w", ErrOAuth)
 		case "other":
-			return nil, errC14Other
+			return withErr, errC14Other
 		}
 		return nil, nil
 	}
@@ -322,11 +326,11 @@ func c14One(cases *verifx.Cases, idx int, now time.Time, h c14Header, vo string,
 					fail("verifier-called-on-malformed", "the verifier was called for a malformed credential")
 					return false
 				}
-			case vo == "invalid":
+			case strings.TrimSuffix(vo, "+info") == "invalid":
 				legal = []int{401}
-			case vo == "oauth":
+			case strings.TrimSuffix(vo, "+info") == "oauth":
 				legal = []int{400}
-			case vo == "other" || vo == "nilinfo":
+			case strings.TrimSuffix(vo, "+info") == "other" || vo == "nilinfo":
 				legal = []int{500}
 			default:
 				if !scopesOK {
